@@ -463,3 +463,292 @@ theorem readItem_ok (bs : Bytes) (it : Item) (rest : Bytes) (h : readItem bs = .
     subst h
     exact (dec_canon _).1 _ _ _ hd
   · simp at h
+
+/-! ### the primitives never run out of fuel (only `decItem` and `decMany` are fuelled) -/
+
+theorem readSize_ne_fuel (ll : Nat) (rest : Bytes) : readSize ll rest ≠ .error .fuel := by
+  unfold readSize
+  split
+  · simp
+  · dsimp only
+    split
+    · simp
+    · split
+      · simp
+      · split <;> simp
+
+theorem readHead_ne_fuel (bs : Bytes) : readHead bs ≠ .error .fuel := by
+  cases bs with
+  | nil => simp [readHead]
+  | cons b r =>
+    simp only [readHead]
+    split
+    · simp
+    · split
+      · simp
+      · split
+        · have := readSize_ne_fuel (b.toNat - 0xB7) r
+          split
+          · simp
+          · rename_i e he; intro h; simp only [Except.error.injEq] at h; subst h; exact this he
+        · split
+          · simp
+          · have := readSize_ne_fuel (b.toNat - 0xF7) r
+            split
+            · simp
+            · rename_i e he; intro h; simp only [Except.error.injEq] at h; subst h; exact this he
+
+theorem readBytes_ne_fuel (bs : Bytes) : readBytes bs ≠ .error (.rlp .fuel) := by
+  unfold readBytes
+  have := readHead_ne_fuel bs
+  split
+  · rename_i e he; intro h; simp only [Except.error.injEq, TErr.rlp.injEq] at h; subst h; exact this he
+  · simp
+  · split
+    · simp
+    · split
+      · split <;> simp
+      · simp
+  · simp
+
+theorem readUint_ne_fuel (k : Nat) (bs : Bytes) : readUint k bs ≠ .error (.rlp .fuel) := by
+  unfold readUint
+  have := readHead_ne_fuel bs
+  split
+  · rename_i e he; intro h; simp only [Except.error.injEq, TErr.rlp.injEq] at h; subst h; exact this he
+  · split <;> simp
+  · split
+    · simp
+    · split
+      · simp
+      · split
+        · simp
+        · split <;> simp
+        · split <;> simp
+  · simp
+
+theorem readBool_ne_fuel (bs : Bytes) : readBool bs ≠ .error (.rlp .fuel) := by
+  unfold readBool
+  have := readUint_ne_fuel 1 bs
+  split
+  · rename_i e he; intro h; simp only [Except.error.injEq] at h; subst h; exact this he
+  · split
+    · simp
+    · split <;> simp
+
+theorem readBig_ne_fuel (bs : Bytes) : readBig bs ≠ .error (.rlp .fuel) := by
+  unfold readBig
+  have := readBytes_ne_fuel bs
+  split
+  · rename_i e he; intro h; simp only [Except.error.injEq] at h; subst h; exact this he
+  · split
+    · split <;> simp
+    · simp
+
+theorem readByteArray_ne_fuel (n : Nat) (bs : Bytes) : readByteArray n bs ≠ .error (.rlp .fuel) := by
+  unfold readByteArray
+  have := readHead_ne_fuel bs
+  split
+  · rename_i e he; intro h; simp only [Except.error.injEq, TErr.rlp.injEq] at h; subst h; exact this he
+  · split <;> simp
+  · split
+    · simp
+    · split
+      · simp
+      · split
+        · split <;> simp
+        · simp
+  · simp
+
+theorem readRaw_ne_fuel (bs : Bytes) : readRaw bs ≠ .error (.rlp .fuel) := by
+  unfold readRaw
+  have := readHead_ne_fuel bs
+  split
+  · rename_i e he; intro h; simp only [Except.error.injEq, TErr.rlp.injEq] at h; subst h; exact this he
+  · simp
+  · split <;> simp
+  · split <;> simp
+
+theorem readList_ne_fuel (bs : Bytes) : readList bs ≠ .error (.rlp .fuel) := by
+  unfold readList
+  have := readHead_ne_fuel bs
+  split
+  · rename_i e he; intro h; simp only [Except.error.injEq, TErr.rlp.injEq] at h; subst h; exact this he
+  · split <;> simp
+  · simp
+
+/-- consumption: a successfully decoded item is followed by a strictly shorter rest. -/
+theorem decItem_consumes (f : Nat) (bs : Bytes) (it : Item) (rest : Bytes) (h : decItem f bs = .ok (it, rest)) :
+    rest.length < bs.length := by
+  have := ((dec_canon f).1 _ _ _ h).1
+  have hp := enc_length_pos it
+  rw [this, List.length_append]; omega
+
+/-- fuel `2·len` (at least 1) suffices for one item, `2·len+1` for a payload: no `fuel` outcome. -/
+theorem decItem_ne_fuel (f : Nat) :
+    (∀ bs, 1 ≤ f → 2 * bs.length ≤ f → decItem f bs ≠ .error .fuel) ∧
+    (∀ bs, 2 * bs.length + 1 ≤ f → decList f bs ≠ .error .fuel) := by
+  induction f with
+  | zero => constructor <;> intros <;> omega
+  | succ f ih =>
+    obtain ⟨ihI, ihL⟩ := ih
+    constructor
+    · intro bs _ hf
+      simp only [decItem]
+      have hh := readHead_ne_fuel bs
+      split
+      · rename_i e he; intro h; simp only [Except.error.injEq] at h; subst h; exact hh he
+      · simp
+      · split
+        · simp
+        · split
+          · split <;> simp
+          · simp
+      · rename_i n r hr
+        split
+        · simp
+        · rename_i hl
+          have hlen : (r.take n).length = n := by rw [List.length_take]; omega
+          obtain ⟨hbs, _⟩ := readHead_ok_list _ _ _ hr
+          have hhl := header_length_pos 0xC0 n
+          have hb : bs.length = (header 0xC0 n).length + r.length := by rw [hbs, List.length_append]
+          have := ihL (r.take n) (by omega)
+          split
+          · simp
+          · rename_i e he; intro h; simp only [Except.error.injEq] at h; subst h; exact this he
+    · intro bs hf
+      cases bs with
+      | nil => simp [decList]
+      | cons b bs' =>
+        simp only [decList]
+        simp only [List.length_cons] at hf
+        have h1 := ihI (b :: bs') (by omega) (by simp only [List.length_cons]; omega)
+        split
+        · rename_i x rest hx
+          have hc := decItem_consumes _ _ _ _ hx
+          simp only [List.length_cons] at hc
+          have h2 := ihL rest (by omega)
+          split
+          · simp
+          · rename_i e he; intro h; simp only [Except.error.injEq] at h; subst h; exact h2 he
+        · rename_i e he; intro h; simp only [Except.error.injEq] at h; subst h; exact h1 he
+
+theorem readItem_ne_fuel (bs : Bytes) : readItem bs ≠ .error (.rlp .fuel) := by
+  unfold readItem
+  have := (decItem_ne_fuel (3 * bs.length + 1)).1 bs (by omega) (by omega)
+  split
+  · simp
+  · rename_i e he; intro h; simp only [Except.error.injEq, TErr.rlp.injEq] at h; subst h; exact this he
+
+/-- the untyped decoder never reports `fuel` either (totality of `dec`). -/
+theorem dec_ne_fuel (bs : Bytes) : dec bs ≠ .error .fuel := by
+  unfold dec
+  have := (decItem_ne_fuel (3 * bs.length + 1)).1 bs (by omega) (by omega)
+  split
+  · simp
+  · simp
+  · rename_i e he; intro h; simp only [Except.error.injEq] at h; subst h; exact this he
+
+/-! ### consumption: every successful primitive leaves a strictly shorter rest -/
+
+theorem readHead_consumes (bs : Bytes) (hd : Hd) (h : readHead bs = .ok hd) :
+    (match hd with | .byte _ r => r.length | .str _ r => r.length | .list _ r => r.length) < bs.length := by
+  cases hd with
+  | byte b r =>
+    obtain ⟨hbs, _⟩ := readHead_ok_byte _ _ _ h
+    simp [hbs]
+  | str n r =>
+    obtain ⟨hbs, _⟩ := readHead_ok_str _ _ _ h
+    have := header_length_pos 0x80 n
+    simp only [hbs, List.length_append]; omega
+  | list n r =>
+    obtain ⟨hbs, _⟩ := readHead_ok_list _ _ _ h
+    have := header_length_pos 0xC0 n
+    simp only [hbs, List.length_append]; omega
+
+theorem readBytes_consumes (bs s rest : Bytes) (h : readBytes bs = .ok (s, rest)) : rest.length < bs.length := by
+  obtain ⟨hbs, _⟩ := readBytes_ok _ _ _ h
+  have := encStr_ne_nil s
+  cases he : encStr s with
+  | nil => exact absurd he this
+  | cons b t => rw [hbs, he]; simp; omega
+
+theorem readUint_consumes (k : Nat) (bs : Bytes) (n : Nat) (rest : Bytes) (h : readUint k bs = .ok (n, rest)) :
+    rest.length < bs.length := by
+  unfold readUint at h
+  split at h
+  · simp at h
+  · rename_i b r hh
+    have := readHead_consumes _ _ hh
+    split at h
+    · simp at h
+    · simp only [Except.ok.injEq, Prod.mk.injEq] at h
+      rw [← h.2]; exact this
+  · rename_i m r hh
+    have := readHead_consumes _ _ hh
+    simp only at this
+    have hd : (r.drop m).length ≤ r.length := by simp
+    split at h
+    · simp at h
+    · split at h
+      · simp at h
+      · split at h
+        · simp only [Except.ok.injEq, Prod.mk.injEq] at h
+          rw [← h.2]; omega
+        · split at h
+          · simp at h
+          · simp only [Except.ok.injEq, Prod.mk.injEq] at h
+            rw [← h.2]; omega
+        · split at h
+          · simp at h
+          · simp only [Except.ok.injEq, Prod.mk.injEq] at h
+            rw [← h.2]; omega
+  · simp at h
+
+theorem readBool_consumes (bs : Bytes) (b : Bool) (rest : Bytes) (h : readBool bs = .ok (b, rest)) :
+    rest.length < bs.length := by
+  unfold readBool at h
+  split at h
+  · simp at h
+  · rename_i n r hu
+    have := readUint_consumes _ _ _ _ hu
+    split at h
+    · simp only [Except.ok.injEq, Prod.mk.injEq] at h; rw [← h.2]; exact this
+    · split at h
+      · simp only [Except.ok.injEq, Prod.mk.injEq] at h; rw [← h.2]; exact this
+      · simp at h
+
+theorem readBig_consumes (bs : Bytes) (n : Nat) (rest : Bytes) (h : readBig bs = .ok (n, rest)) :
+    rest.length < bs.length := by
+  unfold readBig at h
+  split at h
+  · simp at h
+  · rename_i s r hs
+    have := readBytes_consumes _ _ _ hs
+    split at h
+    · split at h
+      · simp at h
+      · simp only [Except.ok.injEq, Prod.mk.injEq] at h; rw [← h.2]; exact this
+    · simp only [Except.ok.injEq, Prod.mk.injEq] at h; rw [← h.2]; exact this
+
+theorem readByteArray_consumes (n : Nat) (bs s rest : Bytes) (h : readByteArray n bs = .ok (s, rest)) :
+    rest.length < bs.length :=
+  readBytes_consumes _ _ _ ((readByteArray_ok_iff _ _ _ _).1 h).1
+
+theorem readRaw_consumes (bs b rest : Bytes) (h : readRaw bs = .ok (b, rest)) : rest.length < bs.length := by
+  obtain ⟨hbs, hb⟩ := readRaw_ok _ _ _ h
+  have := rawOk_ne_nil b ((rawOk_iff b).2 hb)
+  cases he : b with
+  | nil => exact absurd he this
+  | cons x t => rw [hbs, he]; simp; omega
+
+theorem readList_consumes (bs p rest : Bytes) (h : readList bs = .ok (p, rest)) : rest.length < bs.length := by
+  obtain ⟨hbs, _⟩ := readList_ok _ _ _ h
+  have := header_length_pos 0xC0 p.length
+  rw [hbs]; simp only [List.length_append]; omega
+
+theorem readItem_consumes (bs : Bytes) (it : Item) (rest : Bytes) (h : readItem bs = .ok (it, rest)) :
+    rest.length < bs.length := by
+  obtain ⟨hbs, _⟩ := readItem_ok _ _ _ h
+  have := enc_length_pos it
+  rw [hbs]; simp only [List.length_append]; omega
